@@ -107,7 +107,8 @@ def work(case):
             if "p" in b0 and not b0["p"].get("style") and b0["p"]["nodes"] and b0["p"]["nodes"][0]["k"] == "r":
                 ch = b0["p"]["nodes"][0]["run"]["ch"]
                 run0 = b0["p"]["nodes"][0]["run"]
-                if ch and ch[0]["k"] == "t" and ch[0]["s"][:1].isalpha() and not run0.get("b") and not run0.get("i"):
+                if ch and ch[0]["k"] == "t" and ch[0]["s"][:1].isalpha() and run0.get("b") is None and run0.get("i") is None \
+                        and ch[0]["s"].upper() != ch[0]["s"]:
                     ch[0]["s"] = "(a) " + ch[0]["s"]
                     feats = sorted(set(feats) | {"lead_punct"})
         case = dict(case, doc=doc, features=feats)
